@@ -125,7 +125,7 @@ func genPolicyIpld(c *Ctx) {
 		case 0:
 			return basicnode.NewInt(int64(c.R.Intn(20)) - 5)
 		case 1:
-			return basicnode.NewString(c.R.Pick([]string{"a*", "abc", "", `a\`, `\*`, "like"}))
+			return basicnode.NewString(c.R.Pick([]string{"a*", "abc", "", `a\`, `\*`, "like", "a**b", "***", `\**`, `*\**`, "/blog/**/draft"}))
 		case 2:
 			return basicnode.NewBool(c.R.Bool())
 		case 3:
@@ -175,7 +175,7 @@ func genPolicyIpld(c *Ctx) {
 		case "all", "any":
 			stmt = list(str(op), str(c.R.Pick(sels[:8])), sub())
 		case "like":
-			stmt = list(str(op), str(c.R.Pick(sels[:8])), str(c.R.Pick([]string{"a*", "*", `a\*`, `a\`, "", "abc"})))
+			stmt = list(str(op), str(c.R.Pick(sels[:8])), str(c.R.Pick([]string{"a*", "*", `a\*`, `a\`, "", "abc", "**", "a**b", "***a", `\**`, `*\**`, `a\\**`, "/blog/**/draft", "é*", "*é"})))
 		default:
 			stmt = list(str(op), str(c.R.Pick(sels[:8])), scalar())
 		}
@@ -235,7 +235,7 @@ func genPolicyIpld(c *Ctx) {
 	}
 	for _, j := range []string{`[]`, `[["==",".a",1]]`, `[["and",[]]]`, `[["or",[["not",["like",".b","a*"]]]]]`, `[["all",".a",["any",".",["<",".",3]]]]`,
 		`[["==",".foo[\"",1]]`, `[["==",".?.foo",1]]`, `[["like",".a","a\\"]]`, `[["==",".a",9007199254740992]]`, `{}`, `"x"`, `[[]]`, `[["not"]]`, `[["==",".[\"\"]",1]]`,
-		`[["not",["==",".a",1],["==",".b",2]]]`, `[["and",[["==",".a",1]],[]]]`, `[["==",".a"]]`, `[["like",".a"]]`, `[["all",".a"]]`, `[["or",[["not",["==",".a",1],1]]]]`} {
+		`[["not",["==",".a",1],["==",".b",2]]]`, `[["and",[["==",".a",1]],[]]]`, `[["==",".a"]]`, `[["like",".a"]]`, `[["like",".path","/blog/**/draft"]]`, `[["any",".l",["like",".","***"]]]`, `[["not",["like",".a","a\\**"]]]`, `[["all",".a"]]`, `[["or",[["not",["==",".a",1],1]]]]`} {
 		nd := J(j)
 		c.Emit("polipld/corpus", WNode(nd), policyIpldObs(nd))
 	}
